@@ -224,6 +224,7 @@ func init() {
 		x.clock = &ClockModel{unix: u, off: a[1].(*Term)}
 		return nil
 	}
+	intrinsics[zz+"ClockControlled"] = func(x *Exec, a []Value) Value { return x.c.st.True }
 	intrinsics[zz+"Time"] = func(x *Exec, a []Value) Value {
 		digs := a[0].(Str)
 		st := x.c.st
